@@ -94,6 +94,19 @@ class MergeChecker:
         self.methods = {k: v for k, v in repo.class_methods(self.rel, clsname).items()}
         self.construct = repo.construct(self.rel, clsname + ".add_interaction")
         self.div, self.div_problem = counter_divisor(repo, self.rel, clsname)
+        from .ownership import container_types
+        kinds = container_types(repo, clsname)
+        self.kinds = {}
+        self.kind_problems = []
+        for attr, ks in kinds.items():
+            if len(ks) != 1:
+                self.kind_problems.append("self.%s is created with different container types %s" % (attr, sorted(ks)))
+                self.kinds[attr] = sorted(ks)[0] if ks else "dict"
+            else:
+                self.kinds[attr] = next(iter(ks))
+            if self.kinds[attr] not in ("dict", "defaultdict(int)", "defaultdict(dict)"):
+                raise AnalysisError("%s: self.%s is created as %s, a container the abstract state does not model" % (
+                    clsname, attr, self.kinds[attr]))
         self.findings = {}      # key -> dict
         self.n_worlds = 0
         self.n_ordertypes = 0
@@ -129,7 +142,8 @@ class MergeChecker:
         # the missing-t world
         self._run_missing_t()
         for cfg, syms, cons in worlds_for(self.directed, self.R):
-            cfg = dict(cfg, cls=self.cls, directed=self.directed)
+            cfg = dict(cfg, cls=self.cls, directed=self.directed, tte_kind=self.kinds["time_to_edge"],
+                       snap_kind=self.kinds["snapshots"])
             ots = enumerate_order_types(syms + (["0"] if zero else []), cons, self.R)
             self.n_worlds += 1
             for ot in ots:
@@ -159,7 +173,8 @@ class MergeChecker:
         for has_e in (False, True):
             for exists in (False, True):
                 cfg = dict(cls=self.cls, directed=self.directed, removal=True, has_e=has_e, exists=exists,
-                           has_prefix=False, closed=False, L="uv")
+                           has_prefix=False, closed=False, L="uv", tte_kind=self.kinds["time_to_edge"],
+                           snap_kind=self.kinds["snapshots"])
                 syms = (["E"] if has_e else []) + (["a", "b"] if exists else [])
                 cons = [("a", 0, "<=", "b", 0)] if exists else []
                 if self.zero:
